@@ -18,8 +18,9 @@ Definition absent : env := mkEnv false doc_subs RAbsent ["duckdb"; "postgres"; "
 Definition C20_full : Prop :=
   forall en evs, conforms gen_facts en sinit evs (fst (run gen_facts en init_state evs)) = true.
 
-(** * what is proved: the same statement on the decidable domain [in_domain gen_facts en evs]
-      - one engine per history (two engines: see C20_refuted_singleton / _stale_config),
+(** * what is proved (1): the same statement on the decidable domain [in_domain gen_facts en evs]
+      - one engine per history (needed only for the session: see C20_partial_no_mixture for any number of engines, and
+        C20_refuted_singleton / _stale_config for why two engines break the session clause),
       - every activate happens in a state where the sub-modules it does not register hold nothing foreign ([act_ok]),
       - context exits by exception only if activate_context reaches deactivate() on that path,
       - deactivate() does not meet a real module whose import raises something its loop does not swallow,
@@ -29,6 +30,15 @@ Theorem C20_partial :
     conforms gen_facts en sinit evs (fst (run gen_facts en init_state evs)) = true.
 Proof. exact (fun en evs => run_conforms gen_facts en evs). Qed.
 Print Assumptions C20_partial.
+
+(** for ANY number of engines and any switching between them ([in_domain0]: the same conditions without the
+    one-engine restriction), everything the property says about imports, restoration and configuration holds; only the
+    identity of the session getOrCreate returns is left to C20_partial *)
+Theorem C20_partial_no_mixture :
+  forall en evs, in_domain0 gen_facts en evs = true ->
+    conforms0 gen_facts en sinit evs (fst (run gen_facts en init_state evs)) = true.
+Proof. exact (fun en evs => no_mixture gen_facts en evs). Qed.
+Print Assumptions C20_partial_no_mixture.
 
 (** restoration is proved without any domain restriction on the history or on the starting state *)
 Theorem C20_deactivate_restores :
@@ -122,6 +132,18 @@ Example C20_domain_nonempty_absent :
   forallb (fun e => in_domain gen_facts absent
     [Activate e (Some 1) []; Import FA (PSub "functions"); Import FS (PSub "functions"); Import FB (PSub "functions");
      Deactivate; Import FA PSql; CtxEnter e (Some 2) []; Import FA (PSub "catalog"); CtxExit XNormal; Import FB PSql]) engines = true.
+Proof. vm_compute. reflexivity. Qed.
+
+(** every ordered pair of engines: activations, a context inside an activation, imports in all three forms, sessions
+    requested, engine switched back and forth -- all in the no-mixture domain (the second engine's functions module was
+    imported before its first activation, as DataFrame code does on first use) *)
+Example C20_no_mixture_domain_all_pairs :
+  forallb (fun e1 => forallb (fun e2 =>
+    in_domain0 gen_facts absent
+      [Activate e1 (Some 1) []; Import FA (PSub "functions"); GetOrCreate; LoadFunctions e2;
+       CtxEnter e2 (Some 2) []; Import FS (PSub "functions"); Import FA (PSub "types"); Import FB (PSub "session"); GetOrCreate;
+       CtxExit XNormal; Import FA PSql; Activate e1 None []; Activate e2 None []; Import FA (PSub "functions");
+       Activate e1 None []; Import FS (PSub "functions"); Deactivate; Import FB PSql]) engines) engines = true.
 Proof. vm_compute. reflexivity. Qed.
 
 (** * refutations of the full statement on the faithful model; each is conditional on the source still having the
